@@ -192,7 +192,7 @@ theorem validateEvent_of_valid {F : Facts} {m : ServerMessage} {e : Event}
   simp only [Facts.validates, Bool.and_eq_true] at hval
   simp only [validate, hval.1, hval.2, Bool.and_self, if_true, checkValid, Bool.and_eq_true] at hv
   have h3 := hv.2
-  simp only [ht, hEv, decide_true, Bool.and_self, if_true, he] at h3
+  simp only [ht, hEv, decide_true, he] at h3
   exact h3
 
 theorem requiresEv_present {F : Facts} {m : ServerMessage} {e : Event} {target type f : String}
